@@ -5,6 +5,7 @@ import (
 	"go/types"
 	"math"
 	"regexp"
+	"regexp/syntax"
 	"strconv"
 	"strings"
 	"unicode"
@@ -205,7 +206,7 @@ func registerIntrinsics(e *Engine) {
 		return sliceV{a: a}
 	}
 	r[vfPkg+".Assume"] = func(e *Engine, fr *frame, args []Value, site ssa.CallInstruction) Value {
-		c := e.liftBool(args[0])
+		c := e.simp(e.liftBool(args[0]))
 		if c.IsTrue() {
 			return nil
 		}
@@ -551,17 +552,31 @@ func registerIntrinsics(e *Engine) {
 	}
 	r["(*regexp.Regexp).FindAllStringSubmatch"] = func(e *Engine, fr *frame, args []Value, site ssa.CallInstruction) Value {
 		re := args[0].(*hostObj).v.(*regexp.Regexp)
-		s, ok := argStr(args[1])
+		subj := args[1]
+		s, ok := argStr(subj)
 		if !ok {
-			s = e.concretizeString(args[1])
+			s = e.classSplitString(re, subj)
 		}
-		ms := re.FindAllStringSubmatch(s, asInt(args[2]))
+		ms := re.FindAllStringSubmatchIndex(s, asInt(args[2]))
 		if ms == nil {
 			return sliceV{nil: true}
 		}
 		out := make([]Value, len(ms))
 		for i, m := range ms {
-			out[i] = mkStrSlice(m)
+			parts := make([]Value, len(m)/2)
+			for k := range parts {
+				lo, hi := m[2*k], m[2*k+1]
+				if lo < 0 {
+					parts[k] = ""
+					continue
+				}
+				if ok {
+					parts[k] = s[lo:hi]
+				} else {
+					parts[k] = e.mkStr(e.strBytes(subj)[lo:hi])
+				}
+			}
+			out[i] = sliceV{a: parts}
 		}
 		return sliceV{a: out}
 	}
@@ -605,6 +620,124 @@ func (e *Engine) concretizeString(v Value) string {
 	return string(out)
 }
 
+// classSplitString case-splits every symbolic byte of v on the character classes the
+// pattern itself distinguishes and returns a representative concrete string; the chosen
+// classes are added to the path condition. Sound for ASCII-only patterns without '.',
+// whose matching depends on each byte only through these classes.
+func (e *Engine) classSplitString(re *regexp.Regexp, v Value) string {
+	classes := regexpClasses(re.String())
+	if classes == nil {
+		e.abort(abortEngine, "regexp with non-ASCII or any-char on a symbolic subject: "+re.String())
+	}
+	b := e.strBytes(v)
+	out := make([]byte, len(b))
+	c := e.ctx
+	for i, t := range b {
+		if t.IsConst() {
+			out[i] = byte(t.Val)
+			continue
+		}
+		alts := make([]*smt.Term, len(classes))
+		for k, cl := range classes {
+			var ds []*smt.Term
+			for _, iv := range cl.ivs {
+				if iv[0] == iv[1] {
+					ds = append(ds, c.Eq(t, c.BVConst(8, uint64(iv[0]))))
+				} else {
+					ds = append(ds, c.And(c.Ule(c.BVConst(8, uint64(iv[0])), t), c.Ule(t, c.BVConst(8, uint64(iv[1])))))
+				}
+			}
+			alts[k] = c.Or(ds...)
+		}
+		k := e.choose(alts, true)
+		out[i] = classes[k].rep
+	}
+	return string(out)
+}
+
+type byteClass struct {
+	ivs [][2]int
+	rep byte
+}
+
+// regexpClasses partitions 0..255 by membership in the literal runes / class ranges of the pattern.
+func regexpClasses(pat string) []byteClass {
+	rx, err := syntax.Parse(pat, syntax.Perl)
+	if err != nil {
+		return nil
+	}
+	var ranges [][2]rune
+	okp := true
+	var walk func(r *syntax.Regexp)
+	walk = func(r *syntax.Regexp) {
+		switch r.Op {
+		case syntax.OpLiteral:
+			for _, x := range r.Rune {
+				ranges = append(ranges, [2]rune{x, x})
+			}
+			if r.Flags&syntax.FoldCase != 0 {
+				okp = false
+			}
+		case syntax.OpCharClass:
+			for i := 0; i+1 < len(r.Rune); i += 2 {
+				ranges = append(ranges, [2]rune{r.Rune[i], r.Rune[i+1]})
+			}
+		case syntax.OpAnyChar, syntax.OpAnyCharNotNL, syntax.OpWordBoundary, syntax.OpNoWordBoundary:
+			okp = false
+		}
+		for _, s := range r.Sub {
+			walk(s)
+		}
+	}
+	walk(rx)
+	if !okp {
+		return nil
+	}
+	for _, r := range ranges {
+		if r[1] > 127 {
+			return nil
+		}
+	}
+	sig := func(b int) string {
+		var sb strings.Builder
+		for k, r := range ranges {
+			if rune(b) >= r[0] && rune(b) <= r[1] {
+				fmt.Fprintf(&sb, "%d,", k)
+			}
+		}
+		return sb.String()
+	}
+	idx := map[string]int{}
+	var out []byteClass
+	start := 0
+	cur := sig(0)
+	flush := func(end int) {
+		k, ok := idx[cur]
+		if !ok {
+			k = len(out)
+			idx[cur] = k
+			rep := byte(start)
+			if cur == "" {
+				rep = 0x01 // an ASCII control byte no class contains
+				if sig(1) != "" {
+					rep = byte(start)
+				}
+			}
+			out = append(out, byteClass{rep: rep})
+		}
+		out[k].ivs = append(out[k].ivs, [2]int{start, end})
+	}
+	for b := 1; b < 256; b++ {
+		s := sig(b)
+		if s != cur {
+			flush(b - 1)
+			start, cur = b, s
+		}
+	}
+	flush(255)
+	return out
+}
+
 func (e *Engine) runeInTable(rt *smt.Term, tab *unicode.RangeTable) *smt.Term {
 	var cs []*smt.Term
 	c := e.ctx
@@ -642,6 +775,7 @@ func (e *Engine) strCat(a, b Value) Value {
 // assertion discharges one Assert(label, cond) on the current path.
 func (e *Engine) assertion(label string, c *smt.Term) {
 	e.marks["assert:"+label] = true
+	c = e.simp(c)
 	if c.IsTrue() {
 		e.noteObligation(label, true)
 		return
